@@ -46,6 +46,11 @@ pub struct Sc {
     /// TZ (h hours west of UTC; negative = east), through the real today_local(), not the test override.
     #[serde(default)]
     pub clock_tz: Option<i8>,
+    /// End-to-end lane: the first application run whose rows all have an answer is also executed by
+    /// the REAL acb binary (clap, main, home-directory look-up, real clock and file system) over a
+    /// pre-populated ~/.acb that covers every date the rows need, so that no network is reached.
+    #[serde(default)]
+    pub e2e: bool,
     /// Look-ups over a cache an earlier run left behind, while the network misbehaves.
     #[serde(default)]
     pub degraded: Vec<Degraded>,
@@ -219,6 +224,7 @@ pub fn generate(seed: u64) -> Sc {
         app_run_files: app_runs.iter().map(|_| r.range(1, 3) as usize).collect(),
         legacy_date_col: r.chance(1, 5),
         date_fmt: r.weighted(&[4, 1, 1]) as u8,
+        e2e: r.chance(1, 12),
         clock_tz: if r.chance(1, 3) { Some(*r.pick(&[5i8, 8, 12, -1, -9, -13])) } else { None },
         app_runs,
         hash_seed: r.next_u64(),
@@ -801,6 +807,11 @@ impl Engine for C12 {
                 }
             }
         }
+        if sc.e2e && !malformed_cfg {
+            if let Some(v) = self.e2e_lane(sc, &boc, today, pt, st, &mut digest) {
+                push(v, &mut violations);
+            }
+        }
         ExecOut { violations, digest, nontrivial }
     }
 
@@ -942,6 +953,11 @@ impl Engine for C12 {
             s.clock_tz = None;
             c.push(s);
         }
+        if sc.e2e {
+            let mut s = sc.clone();
+            s.e2e = false;
+            c.push(s);
+        }
         if sc.app_run_files.iter().any(|n| *n > 1) {
             let mut s = sc.clone();
             s.app_run_files.clear();
@@ -972,7 +988,7 @@ impl Engine for C12 {
         "exploration"
     }
     fn rule(&self) -> String {
-        "Per simulation one seeded publication calendar over 2-4 years (weekends, fixed+random holidays, 0-3 gaps of 3-11 days placed at random / across a year end / in early January; some spans straddle the 2016/2017 noon->daily seam; every published value unique with >=5 decimals), a simulated today, a published-today flag, 4-14 look-up dates biased to today-9..today+2, gap ends +-, Jan 1-8 / Dec 24-31, the seam, plus uniform; each look-up runs the real RateLoader/JsonRemoteRateLoader in a fresh simulated process with an empty cache against SimBoC; 1-2 sequences of 2-5 nearby dates (steps of +-1..4 or +-7/8 days) are looked up by ONE loader in one process (rows of a CSV share a loader), each answer still compared with the model; plus 1-3 application runs (CSV rows with USD/CAD/other currency, with/without explicit rate, separate commission currency) through run_acb_app_to_delta_models and through run_acb_app_to_console (the Amount cell of every USD row on the captured stdout must be 10000 x the expected rate to the cent; a rejected run must explain itself on stderr and print no tables). One fifth of simulations damage 1-4 observations (obs_malformed). One third add 1-2 degraded-network runs: an earlier process (1-370 days before, healthy network, CSV or in-memory cache) leaves its cache, today's process looks 1-4 dates up by one loader while every other request meets a network fault (error / HTML body / truncated JSON / empty body; a third of these runs meet a healthy network instead: a plain run over an earlier run's cache); every Ok must be the model's answer, an Err is accepted only once a fault has fired in that run. The order of the observations in the server's response is a format knob (ascending, descending, a few listed late, a few listed twice, a few of the neighbouring years listed as well). Application runs include return-of-capital rows and, in a third of the simulations, another date format with the matching --date-fmt. In a third of the simulations the processes learn 'today' from the simulated system clock and a per-process TZ (5/8/12 h west, 1/9/13 h east of UTC; local time 01:00-23:00) through the real today_local() instead of the library's test override. Oracle: reference model (rate of the date if in the snapshot; else error if date >= today; else first present of d-1..d-7; else error), exact for noon values, |rate*v-1|<1e-9 for daily. evaluations = simulations; distinct_nontrivial = distinct simulations with at least one look-up that needed a look-back or had no usable rate.".to_string()
+        "Per simulation one seeded publication calendar over 2-4 years (weekends, fixed+random holidays, 0-3 gaps of 3-11 days placed at random / across a year end / in early January; some spans straddle the 2016/2017 noon->daily seam; every published value unique with >=5 decimals), a simulated today, a published-today flag, 4-14 look-up dates biased to today-9..today+2, gap ends +-, Jan 1-8 / Dec 24-31, the seam, plus uniform; each look-up runs the real RateLoader/JsonRemoteRateLoader in a fresh simulated process with an empty cache against SimBoC; 1-2 sequences of 2-5 nearby dates (steps of +-1..4 or +-7/8 days) are looked up by ONE loader in one process (rows of a CSV share a loader), each answer still compared with the model; plus 1-3 application runs (CSV rows with USD/CAD/other currency, with/without explicit rate, separate commission currency) through run_acb_app_to_delta_models and through run_acb_app_to_console (the Amount cell of every USD row on the captured stdout must be 10000 x the expected rate to the cent; a rejected run must explain itself on stderr and print no tables). One fifth of simulations damage 1-4 observations (obs_malformed). One third add 1-2 degraded-network runs: an earlier process (1-370 days before, healthy network, CSV or in-memory cache) leaves its cache, today's process looks 1-4 dates up by one loader while every other request meets a network fault (error / HTML body / truncated JSON / empty body; a third of these runs meet a healthy network instead: a plain run over an earlier run's cache); every Ok must be the model's answer, an Err is accepted only once a fault has fired in that run. The order of the observations in the server's response is a format knob (ascending, descending, a few listed late, a few listed twice, a few of the neighbouring years listed as well). Application runs include return-of-capital rows and, in a third of the simulations, another date format with the matching --date-fmt. One simulation in twelve also runs the real acb binary (clap incl. --date-fmt, main, home-directory look-up, real file system) over a prepared ~/.acb with complete years for every needed date and checks exit status and Amount figures. In a third of the simulations the processes learn 'today' from the simulated system clock and a per-process TZ (5/8/12 h west, 1/9/13 h east of UTC; local time 01:00-23:00) through the real today_local() instead of the library's test override. Oracle: reference model (rate of the date if in the snapshot; else error if date >= today; else first present of d-1..d-7; else error), exact for noon values, |rate*v-1|<1e-9 for daily. evaluations = simulations; distinct_nontrivial = distinct simulations with at least one look-up that needed a look-back or had no usable rate.".to_string()
     }
     fn state_measure(&self) -> String {
         "distinct (look-back depth 0..7|none, crosses year, series, relation of date to today, malformed config) tuples".to_string()
@@ -1016,6 +1032,7 @@ impl Engine for C12 {
             "probe.app_sell_rows",
             "probe.app_runs_with_date_fmt_option",
             "probe.app_rows_with_an_explicit_zero_amount",
+            "probe.e2e_rows_run_by_the_real_binary_over_a_prepared_cache",
             "probe.calendar_around_par_noon_below_1_daily_above_1",
             "probe.date_in_a_year_without_any_publication",
             "probe.today_from_system_clock_west_of_utc",
@@ -1032,6 +1049,100 @@ impl Engine for C12 {
             "probe.observations_listed_twice",
             "probe.observations_outside_the_requested_range_listed",
         ]
+    }
+}
+
+impl C12 {
+    /// The real binary over a pre-populated cache (no look-up may need the network).
+    fn e2e_lane(&self, sc: &Sc, boc: &Arc<BocData>, today: time::Date, pt: bool, st: &mut Stats, digest: &mut u64) -> Option<Violation> {
+        // the first application run every row of which has an answer
+        let rows = sc.app_runs.iter().find(|rows| {
+            rows.iter().all(|row| {
+                let trade = pd(&row.trade);
+                expected_side(boc, today, pt, trade, &row.cur, &row.fx).is_ok() && expected_side(boc, today, pt, trade, &row.ccur, &row.cfx).is_ok()
+            }) && rows.iter().any(|row| row.fx.is_none() && row.cur.as_ref().map(|c| c.trim().to_uppercase() == "USD").unwrap_or(false))
+        })?;
+        if let Err(e) = crate::c09::e2e_seam_check() {
+            st.harness_error(e);
+            return None;
+        }
+        // every date the rows need, per the model, and a year file that covers each of them
+        let mut years: std::collections::BTreeSet<i32> = std::collections::BTreeSet::new();
+        for row in rows {
+            let usd_lookup = |cur: &Option<String>, fx: &Option<String>| fx.is_none() && cur.as_ref().map(|c| c.trim().to_uppercase() == "USD").unwrap_or(false);
+            if usd_lookup(&row.cur, &row.fx) || usd_lookup(&row.ccur, &row.cfx) {
+                for d in ref_touched(boc, today, pt, pd(&row.trade)) {
+                    years.insert(d.year());
+                }
+            }
+        }
+        let dir = crate::c09::e2e_dir();
+        let root = format!("{}-c12", crate::c09::e2e_scratch());
+        let _ = std::fs::remove_dir_all(&root);
+        if std::fs::create_dir_all(format!("{}/home/.acb", root)).is_err() {
+            st.harness_error(format!("e2e scratch {}", root));
+            return None;
+        }
+        for y in &years {
+            let mut text = String::new();
+            let mut day = ymd(*y, 1, 1);
+            while day.year() == *y && (day < today || (day == today && boc.in_snapshot(day, today, pt))) {
+                let rate = if boc.in_snapshot(day, today, pt) { boc.expected_rate(day).map(|x| x.to_string()).unwrap_or_else(|| "0".to_string()) } else { "0".to_string() };
+                text.push_str(&format!("{},{}\n", day, rate));
+                day += Duration::days(1);
+            }
+            let _ = std::fs::write(format!("{}/home/.acb/rates-{}.csv", root, y), text);
+        }
+        let _ = std::fs::write(format!("{}/tx.csv", root), app_csv_fmt(rows, 0, sc.legacy_date_col, sc.date_fmt));
+        let mut args: Vec<String> = vec!["tx.csv".to_string()];
+        if sc.date_fmt != 0 {
+            args.push("--date-fmt".to_string());
+            args.push(DATE_FMTS[sc.date_fmt as usize % 3].to_string());
+        }
+        let now = (today - ymd(1970, 1, 1)).whole_days() * 86_400 + 43_200;
+        let o = std::process::Command::new(format!("{}/debug/acb", dir))
+            .args(&args)
+            .current_dir(&root)
+            .env_clear()
+            .env("HOME", format!("{}/home", root))
+            .env("TZ", "UTC")
+            .env("LD_PRELOAD", format!("{}/libsimseed.so", dir))
+            .env("ACBSIM_SEED", sc.hash_seed.to_string())
+            .env("ACBSIM_NOW", now.to_string())
+            .env("ACBSIM_PID", "4321")
+            .stdin(std::process::Stdio::null())
+            .output();
+        let _ = std::fs::remove_dir_all(&root);
+        let o = match o {
+            Ok(o) => o,
+            Err(e) => {
+                st.harness_error(format!("cannot start the real acb binary: {}", e));
+                return None;
+            }
+        };
+        st.bump("sim.real_os_processes");
+        st.bump("probe.e2e_rows_run_by_the_real_binary_over_a_prepared_cache");
+        let out_txt = String::from_utf8_lossy(&o.stdout).to_string();
+        let err_txt = String::from_utf8_lossy(&o.stderr).to_string();
+        *digest = fnv64_add(*digest, out_txt.as_bytes());
+        let ctx = format!("real acb binary (end-to-end lane), today {} published_today {}, ~/.acb prepared with complete years {:?}, args {:?}, rows:\n{}", today, pt, years, args, app_csv_fmt(rows, 0, sc.legacy_date_col, sc.date_fmt));
+        if o.status.code() != Some(0) {
+            return Some(Violation { kind: "app_error_where_rates_exist".into(), signature: "the real binary rejects rows the property accepts (every needed date is in its cache)".into(), detail: format!("{}\nexit {:?}, stderr: {}", ctx, o.status.code(), err_txt.lines().last().unwrap_or("")) });
+        }
+        let flat = out_txt.replace([',', '\'', '\u{a0}', '\u{202f}'], "");
+        for row in rows {
+            if !(row.fx.is_none() && row.cur.as_ref().map(|c| c.trim().to_uppercase() == "USD").unwrap_or(false)) || row.roc || row.zero_price {
+                continue;
+            }
+            if let Ok(Some((_, tr))) = expected_side(boc, today, pt, pd(&row.trade), &row.cur, &row.fx) {
+                let amount = (Decimal::from(if row.sell { 10 } else { 10000 }) * tr).round_dp_with_strategy(2, rust_decimal::RoundingStrategy::MidpointAwayFromZero);
+                let cell = format!("{:.2}", amount);
+                if !flat.contains(&cell) {
+                    return Some(Violation { kind: "console_wrong_amount".into(), signature: "Amount cell of a USD row not computed with the expected rate (real binary)".into(), detail: format!("{}\nexpected an Amount {} (x {}), not found on stdout", ctx, cell, tr) });
+                }
+            }
+        }
+        None
     }
 }
 
